@@ -738,9 +738,14 @@ func (server *SugarDB) getObjectFreq(ctx context.Context, key string) (int, erro
 	var freq int
 	var err error
 	if server.lfuCache.cache != nil {
-		server.lfuCache.cache[database].Mutex.Lock()
-		freq, err = server.lfuCache.cache[database].GetCount(key)
-		server.lfuCache.cache[database].Mutex.Unlock()
+		// A database that was never written to has no cache yet: none of its keys exist.
+		cache, ok := server.lfuCache.cache[database]
+		if !ok {
+			return -1, fmt.Errorf("Key: %s does not exist.", key)
+		}
+		cache.Mutex.Lock()
+		freq, err = cache.GetCount(key)
+		cache.Mutex.Unlock()
 	} else {
 		return -1, errors.New("error: eviction policy must be a type of LFU")
 	}
@@ -758,9 +763,14 @@ func (server *SugarDB) getObjectIdleTime(ctx context.Context, key string) (float
 	var accessTime int64
 	var err error
 	if server.lruCache.cache != nil {
-		server.lruCache.cache[database].Mutex.Lock()
-		accessTime, err = server.lruCache.cache[database].GetTime(key)
-		server.lruCache.cache[database].Mutex.Unlock()
+		// A database that was never written to has no cache yet: none of its keys exist.
+		cache, ok := server.lruCache.cache[database]
+		if !ok {
+			return -1, fmt.Errorf("Error: key %s does not exist.", key)
+		}
+		cache.Mutex.Lock()
+		accessTime, err = cache.GetTime(key)
+		cache.Mutex.Unlock()
 	} else {
 		return -1, errors.New("error: eviction policy must be a type of LRU")
 	}
